@@ -86,3 +86,10 @@ PROPS['C18'] = A(level='exploration', engine='enumerate', harnesses=[A(src='harn
     rule='cases = every point of the stated finite domains, enumerated exhaustively; distinct by construction; bitset objects sit between ASan-poisoned pads and are built over 0xCD-filled storage so stray writes and uninitialised words are visible',
     technique='exhaustive bounded enumeration of the (state x operation) product of bitset<N> and of all small inputs, executed on the real implementation against std:: references',
     assumptions=TRUST + ['std::bitset, std::array, std::mt19937 as references; pcg32 reference transcribed from pcg-c-basic'])
+
+PROPS['C19'] = A(level='exploration', engine='enumerate', harnesses=[A(src='harness/c19_format.cpp', san='asan')], budget=A(quick=150, thorough=1500),
+    bounds=A(quick='printf: every ISO-defined flag subset of {-,+,space,#,0,apostrophe} x width in {absent,0,1,2,3,5,8,11,20,64,70} (literal or *) x precision in {absent,".",0,1,2,3,5,8,11,20,64,70} (literal or .*) x length in {none,hh,h,l,ll,z,t,j} x conversion in {d,u,o,x,X} (i: default and hh) x 8-11 boundary values per type (0, +-1, +-42, min, max, min+1, max-1, out-of-range for hh/h), negative * arguments; %c, %s (embedded NUL, exact-size unterminated source with bounding precision), %p, %%, text; positional n$ permutations. fmt: every spec string of length <=4 over {0,1,9,:,b,c,d,i,o,x,X,h} with 1-3 int arguments from 3 value triples + char/string arguments + 20 malformed shapes. logger: Limit in {2,3,4,8,128}, every message length 0..3*Limit+2 in 3 append modes',
+             thorough='printf widths and precisions 0..70 in full, i with every length modifier; fmt specs of length <=5'),
+    rule='cases = every point of the stated product grammar / every spec string, enumerated exhaustively; each (directive, argument values) pair is distinct by construction; all are non-trivial (each is compared byte for byte with glibc snprintf in the C locale, resp. with an independent interpreter of the documented {}-grammar)',
+    technique='exhaustive enumeration of the directive product grammar executed on the real implementation against glibc snprintf / a reference interpreter',
+    assumptions=TRUST + ['glibc snprintf in the C locale as the embodiment of ISO C for the ISO-defined directive space'])
